@@ -282,7 +282,7 @@ var C13 = &sim.Scenario{
 	MaxWorkers: 1,
 	Runs: func(th bool) int {
 		if th {
-			return 120000
+			return 40000
 		}
 		return 1500
 	},
